@@ -219,9 +219,18 @@ inductive FSrc
   holding this one source gives exactly that column, since the column path multiplies a lone factor
   by the scale and nothing else -/
   | one (nrows : Nat)
+  /-- a NUMERICAL factor whose value is a scalar (`x.max()`, `len(x)`, `{7}`), on data of `nrows` rows (after the
+  null rows are dropped): `_as_numerical_column` broadcasts it (`numpy.full(nrows, v)`) before `_encode_numerical`
+  drops rows and encodes, for every output type. (A factor whose value is a list with one number per row becomes
+  `numpy.array(list)` there, i.e. it is a `.num` source.) -/
+  | scalar (name : String) (v : Rat) (nrows : Nat)
 deriving Repr
 
+/-- `FormulaMaterializer._as_numerical_column` on a scalar: `numpy.full(nrows, v)` -/
+def broadcast (nrows : Nat) (v : Rat) : Col := List.replicate nrows v
+
 def FSrc.nrows : FSrc → Nat
+  | .scalar _ _ n => n
   | .num _ vals => vals.length
   | .cat _ vals _ _ => vals.length
   | .one n => n
@@ -238,6 +247,7 @@ def FSrc.encodeS : FSrc → List (GItem SCol)
     let items := (r.1.zip r.2).map (fun p => (catName name p.1 reduced, p.2))
     if reduced then items.drop 1 else items
   | .one n => [("Intercept", SCol.ofDense (List.replicate n 1))]
+  | .scalar name v n => [(name, SCol.ofDense (broadcast n v))]
 
 /-- the same with `output="numpy"` -/
 def FSrc.encodeD : FSrc → List (GItem Col)
@@ -247,6 +257,7 @@ def FSrc.encodeD : FSrc → List (GItem Col)
     let items := (r.1.zip r.2).map (fun p => (catName name p.1 reduced, p.2))
     if reduced then items.drop 1 else items
   | .one n => [("Intercept", List.replicate n 1)]
+  | .scalar name v n => [(name, broadcast n v)]
 
 structure STerm where
   scale : Rat
